@@ -59,8 +59,8 @@ type resCertSpec struct {
 }
 
 var resCerts = map[int]resCertSpec{
-	1: {1, 23, 25},  // short lived
-	2: {1, 0, 143},  // long lived
+	1: {1, 23, 25}, // short lived
+	2: {1, 0, 143}, // long lived
 	3: {2, 23, 25},
 	4: {2, 0, 143},
 	5: {1, 23, 27},
